@@ -110,7 +110,7 @@ fn invlpgb_case<S: NotGiantPageSize>(out: &mut Out, rng: &mut Rng, count_max: u1
     let inv = Invlpgb::verif_new(count_max, supports_nested, nasid);
     let eff = (count_max as u64).max(1);
     // keep the number of requests (= trapped instructions) below ~300
-    let max_pages = eff.saturating_mul(40 + rng.below(260));
+    let max_pages = eff.saturating_mul(if rng.chance(1, 16) { 40 + rng.below(260) } else { 1 + rng.below(48) });
     let (s, e) = range::<S>(rng, max_pages);
     let asid = o.asid.map(|a| if (a as u32) < nasid { a } else { (a as u32 % nasid) as u16 });
     let r = trap::run(|| {
@@ -184,9 +184,9 @@ pub fn run(out: &mut Out, rng: &mut Rng, tier: Tier) {
         eprintln!("trap selftest FAILED: {}", e);
         std::process::exit(2);
     }
-    let n = tier.n(1_000, 100_000);
+    let n = tier.n(1_000, 25_000);
     // tlb::flush / MapperFlush::flush: one invlpg of exactly the address / page start
-    for _ in 0..n * 5 {
+    for _ in 0..n * 5 * if tier == Tier::Thorough { 4 } else { 1 } {
         let a = rng.canon();
         let r = trap::run(|| tlb::flush(VirtAddr::new(a)));
         out.emit("tlb_flush", &[a], &trace(&r), true);
@@ -195,7 +195,7 @@ pub fn run(out: &mut Out, rng: &mut Rng, tier: Tier) {
         mapper_flush::<Size1GiB>(out, rng);
     }
     // flush_all / MapperFlushAll: CR3 read + write
-    for k in 0..n * 5 {
+    for k in 0..n * 5 * if tier == Tier::Thorough { 4 } else { 1 } {
         let cr3 = match rng.below(4) {
             0 => rng.next(),
             1 => (rng.phys() & 0x000f_ffff_ffff_f000) | rng.below(4096), // PCID in the low bits
